@@ -689,13 +689,13 @@ class C20Monitor(Monitor):
                 x.violate("C20/tree-line-evaluations", f"line of {nm} says {me.group(1) if me else None}, deme has {d.n_evaluations}")
             star = "***" in ln
             should = d.best_individual is not None and d.best_individual.fitness == bi.fitness
+            if should:
+                x.flag("marker checked" + (" at best==0.0" if bi.fitness == 0 else ""))
             if star != should:
                 if should and bi.fitness == 0:
                     x.violate("C20/marker-missing-at-best-zero", f"deme {nm} holds the global best 0.0 but carries no *** marker")
                 else:
                     x.violate("C20/marker-wrong", f"deme {nm}: marker={star}, holds global best={should} (best={bi.fitness})")
-            elif should:
-                x.flag("marker checked" + (" at best==0.0" if bi.fitness == 0 else ""))
         x.flag("report parsed")
 
 
